@@ -270,6 +270,9 @@ def surface_manifest(job, p):
                             if isinstance(node, _ast.ClassDef) and node.name == cname:
                                 for b in node.body:
                                     if isinstance(b, (_ast.AsyncFunctionDef, _ast.FunctionDef)) and not b.name.startswith("_"):
+                                        decs = [getattr(x, "id", getattr(x, "attr", "")) for x in b.decorator_list]
+                                        if "overload" in decs:
+                                            continue  # typing.overload stubs legitimately repeat the name
                                         dup[b.name] = dup.get(b.name, 0) + 1
                     except Exception:
                         pass
@@ -291,6 +294,77 @@ def surface_manifest(job, p):
                 if isinstance(obj, type) and obj.__module__ == mname:
                     meths = {n: sig_of(m) for n, m in vars(obj).items() if callable(m) and not n.startswith("_")}
                     out["mocks"][cname] = {"module": f[:-3], "methods": meths}
+    # behavioural part: Protocol conformance and mock behaviour
+    out["conformance"] = {}
+    out["mock_calls"] = []
+    proto_objs, client_objs, mock_objs = {}, {}, {}
+    for kind, sub in (("endpoints", "endpoints"), ("mocks", "mocks.endpoints")):
+        d = os.path.join(root, *pkg.split("."), *sub.split("."))
+        if not os.path.isdir(d):
+            continue
+        for f in sorted(os.listdir(d)):
+            if not f.endswith(".py") or f == "__init__.py":
+                continue
+            try:
+                mod = importlib.import_module(f"{pkg}.{sub}.{f[:-3]}")
+            except BaseException:  # noqa
+                continue
+            for cname, obj in vars(mod).items():
+                if isinstance(obj, type) and obj.__module__ == mod.__name__:
+                    if kind == "mocks":
+                        mock_objs[cname] = obj
+                    elif getattr(obj, "_is_protocol", False):
+                        proto_objs[cname] = obj
+                    else:
+                        client_objs[cname] = obj
+    for cname, cobj in client_objs.items():
+        proto = proto_objs.get(cname + "Protocol")
+        mock = mock_objs.get("Mock" + cname)
+        conf = {"has_protocol": proto is not None, "has_mock": mock is not None}
+        try:
+            if proto is not None:
+                conf["client_isinstance"] = isinstance(cobj(None, "https://x"), proto)
+            if proto is not None and mock is not None:
+                conf["mock_isinstance"] = isinstance(mock(), proto)
+        except BaseException as e:  # noqa
+            conf["error"] = f"{type(e).__name__}: {e}"[:200]
+        out["conformance"][cname] = conf
+    async def _mock_calls():
+        for mname, mobj in mock_objs.items():
+            try:
+                inst = mobj()
+            except BaseException as e:  # noqa
+                out["mock_calls"].append({"cls": mname, "method": "<init>", "result": f"raise:{type(e).__name__}"})
+                continue
+            for n, m in vars(mobj).items():
+                if n.startswith("_") or not callable(m):
+                    continue
+                try:
+                    kwargs, _, _ = build_kwargs(m, [], lambda v, t: v)
+                except BaseException as e:  # noqa
+                    out["mock_calls"].append({"cls": mname, "method": n, "result": f"kwargs:{type(e).__name__}"})
+                    continue
+                try:
+                    r = m(inst, **kwargs)
+                    if hasattr(r, "__anext__"):
+                        await r.__anext__()
+                        res = "yielded"
+                    elif inspect.isawaitable(r):
+                        await r
+                        res = "returned"
+                    else:
+                        res = "returned_sync"
+                except NotImplementedError:
+                    res = "NotImplementedError"
+                except StopAsyncIteration:
+                    res = "empty_stream"
+                except BaseException as e:  # noqa
+                    res = f"raise:{type(e).__name__}:{str(e)[:80]}"
+                out["mock_calls"].append({"cls": mname, "method": n, "result": res})
+    try:
+        asyncio.run(_mock_calls())
+    except BaseException as e:  # noqa
+        out["errors"].append(exc_info(e))
     for key, modname, cls in (("api_client", f"{pkg}.client", "APIClient"), ("mock_api_client", f"{pkg}.mocks.mock_client", "MockAPIClient")):
         try:
             mod = importlib.import_module(modname)
@@ -757,6 +831,53 @@ def roundtrips(job, p):
     return out
 
 
+def exercise_models(job, p):
+    """Structure and unstructure something with every model class so imports nested in generated functions execute."""
+    pkg = p["pkg"]
+    out = {"models": 0, "wrappers": 0, "generator_needed": [], "other_errors": 0}
+    try:
+        conv = importlib.import_module(f"{p.get('core') or pkg + '.core'}.cattrs_converter")
+    except BaseException as e:  # noqa
+        return out
+    mdir = os.path.join(job["root"], *pkg.split("."), "models")
+    if not os.path.isdir(mdir):
+        return out
+    for f in sorted(os.listdir(mdir)):
+        if not f.endswith(".py") or f == "__init__.py":
+            continue
+        try:
+            mod = importlib.import_module(f"{pkg}.models.{f[:-3]}")
+        except BaseException:  # noqa
+            continue
+        for cname, obj in vars(mod).items():
+            if not (isinstance(obj, type) and obj.__module__ == mod.__name__ and dataclasses.is_dataclass(obj)):
+                continue
+            is_wrapper = "_data" in {fl.name for fl in dataclasses.fields(obj)}
+            try:
+                if is_wrapper:
+                    out["wrappers"] += 1
+                    inst = conv.structure_from_dict({}, obj)
+                    conv.unstructure_to_dict(inst)
+                    try:
+                        conv.structure_from_dict({"k": {}}, obj)
+                    except ImportError:
+                        raise
+                    except BaseException as e:  # noqa
+                        if "No module named" in str(e) or BLOCKED in str(e):
+                            raise ImportError(str(e))
+                else:
+                    out["models"] += 1
+                    inst = dummy(obj)
+                    back = conv.unstructure_to_dict(inst)
+                    conv.structure_from_dict(back, obj)
+            except BaseException as e:  # noqa
+                if BLOCKED in str(e) or isinstance(e, ImportError):
+                    out["generator_needed"].append(dict(exc_info(e), cls=cname, module=f[:-3]))
+                else:
+                    out["other_errors"] += 1
+    return out
+
+
 def main():
     job = json.loads(open(sys.argv[1]).read())
     setup(job)
@@ -776,6 +897,8 @@ def main():
             po["calls"] = asyncio.run(run_calls(job, p))
         if "roundtrips" in acts:
             po["roundtrips"] = roundtrips(job, p)
+        if "exercise_models" in acts:
+            po["exercise_models"] = exercise_models(job, p)
         out["packages"][p["pkg"]] = po
     out["generator_importable"] = False
     try:
